@@ -24,7 +24,42 @@ ravel_idx = z3.Function("ravel_idx", Idx, Shp, Idx)       # position in a.ravel(
 unravel_idx = z3.Function("unravel_idx", Idx, Shp, Idx)
 the_idx = z3.Function("the_idx", Shp, Idx)                # the single position of a size-1 shape
 sconcat = z3.Function("sconcat", Shp, Shp, Shp)
+tshape = z3.Function("tshape", Shp, Shp)                  # shape of a.T
+tidx = z3.Function("tidx", Idx, Shp, Idx)                 # position in a of position j of a.T (a of shape s)
 shape1 = z3.Function("shape1", I, Shp)                    # 1-d shape (n,)
+
+# ---- indexing: a[index] for an opaque index expression (numpy indexing is dtype-agnostic)
+IndexExpr = z3.DeclareSort("IndexExpr")
+ishape = z3.Function("ishape", Shp, IndexExpr, Shp)            # shape of a[index]
+imap = z3.Function("imap", Idx, Shp, IndexExpr, Idx)           # position in a of element j of a[index]
+
+
+class IndexTok:
+    """An index expression whose structure is irrelevant: only that every array of one shape is indexed alike."""
+
+    def __init__(self, ctx, base="index", term=None):
+        self.term = term if term is not None else z3.Const(ctx.fresh(base), IndexExpr)
+
+    @staticmethod
+    def of(ex, index, node=None):
+        if isinstance(index, IndexTok):
+            return index
+        try:
+            label = repr(index)
+        except Exception:
+            raise U("index expression", node)
+        if any(isinstance(x, z3.ExprRef) for x in (index if isinstance(index, tuple) else (index,))):
+            raise U("symbolic index expression", node)
+        return IndexTok(None, term=z3.Const(f"index:{label}", IndexExpr))
+
+
+def index_axioms(ctx):
+    s = z3.Const(ctx.fresh("s"), Shp)
+    j = z3.Const(ctx.fresh("j"), Idx)
+    x = z3.Const(ctx.fresh("x"), IndexExpr)
+    return [z3.ForAll([s, j, x], z3.Implies(inshape(j, ishape(s, x)), inshape(imap(j, s, x), s)),
+                      patterns=[imap(j, s, x)])]
+
 
 dt_bool, dt_int, dt_float, dt_uint32, dt_complex = (z3.Const(n, DT) for n in
                                                     ("dt_bool", "dt_int64", "dt_float64", "dt_uint32", "dt_complex128"))
@@ -50,6 +85,11 @@ def shape_axioms(ctx):
         z3.ForAll([s, i], z3.Implies(z3.And(ndim(s) == 0, inshape(i, s)), i == the_idx(s))),
         z3.ForAll([s], z3.Implies(ndim(s) == 0, inshape(the_idx(s), s))),
         z3.ForAll([s], z3.Implies(ndim(s) == 0, s == shp0)),
+        # transposition is an involution on shapes and positions
+        z3.ForAll([s], tshape(tshape(s)) == s),
+        z3.ForAll([s, i], z3.Implies(inshape(i, tshape(s)), inshape(tidx(i, s), s)), patterns=[tidx(i, s)]),
+        z3.ForAll([s, i], z3.Implies(inshape(i, s), z3.And(inshape(tidx(i, tshape(s)), tshape(s)),
+                                                           tidx(tidx(i, tshape(s)), s) == i))),
     ]
 
 
@@ -165,7 +205,11 @@ class Arr:
         if attr == "size":
             return size(self.shape)
         if attr == "T":
-            raise U("transpose of a numeric array", node)
+            s = self.shape
+            out = Arr(tshape(s), lambda j: self.elem(tidx(j, s)), self.kind, self.dtype, self.region,
+                      None if self._init is None else (lambda j: self.init(tidx(j, s))))
+            out.snapshot = lambda: (lambda j, f=_freeze(self): f(tidx(j, s)))
+            return out
         if attr == "flags":
             if not hasattr(self, "_flags"):
                 self._flags = FlagsV(ex.ctx)
@@ -224,6 +268,15 @@ class Arr:
     def sx_getitem(self, ex, idx, node):
         if isinstance(idx, Arr) and idx.kind == "bool":
             return MaskedSel(self, idx)
+        if isinstance(idx, IndexTok):
+            s, x = self.shape, idx.term
+            out = Arr(ishape(s, x), lambda j: self.elem(imap(j, s, x)), self.kind, self.dtype, self.region,
+                      None if self._init is None else (lambda j: self.init(imap(j, s, x))))
+            out.snapshot = lambda: (lambda j, f=_freeze(self): f(imap(j, s, x)))
+            out.indexed_from = (self, idx)
+            if self.region.owner == "fresh":
+                out._flags = FlagsV(ex.ctx)          # a slice of a fresh array: layout unknown
+            return out
         raise U("array indexing", node)
 
     def sx_compare(self, ex, op, other, node, reflected):
@@ -360,7 +413,7 @@ def elementwise(ex, f, operands, kind, node, dtype=None):
     fs = [elemfn(ex, o, shape, node) if not (isinstance(o, Arr) and simplify_bool(o.shape == shape) is True) else _freeze(o)
           for o in operands]
     return Arr(shape, lambda i: f(*[g(i) for g in fs]), kind,
-               dtype if dtype is not None else (dt_bool if kind == "bool" else z3.Const("dt_any", DT)))
+               dtype if dtype is not None else (dt_bool if kind == "bool" else ex.ctx.const("dt_result", DT)))
 
 
 # ------------------------------------------------------------------ exponent matrices
@@ -399,6 +452,23 @@ class ExpMat:
         if isinstance(idx, (int, z3.ArithRef)):
             ex.oblige(f"pre({ex.site('index')}).in_bounds", z3.And(0 <= idx, idx < self.n), "index", node)
             return MonoRow(self.row(idx), self.D)
+        if isinstance(idx, tuple) and len(idx) == 2 and idx[0] == slice(None, None, None) and \
+                isinstance(idx[1], (int, z3.ArithRef)) and not isinstance(idx[1], bool):
+            d = idx[1]
+            ex.oblige(f"pre({ex.site('column')}).in_bounds", z3.And(0 <= d, d < self.D), "index", node,
+                      note="column index of the exponent matrix (negative positions are not modelled)")
+            rows = self._row
+            col = IntVec(self.n, lambda t: expo(rows(t), d))
+            col.dtype = self.dtype
+            col.column_of = (self, d)
+            return col
+        if isinstance(idx, BoolVec):
+            ex.oblige(f"pre({ex.site('row_mask')}).length", idx.n == self.n, "precondition", node)
+            sel = V.selection_for(ex, self.n, idx.at)
+            rows = self._row
+            out = ExpMat(sel.M, self.D, lambda j: rows(sel.sel(j)), Region("fresh"), self.dtype)
+            out.selected_from = (self, sel)
+            return out
         if isinstance(idx, tuple) and len(idx) == 2 and idx[0] == slice(None, None, None) and isinstance(idx[1], ColVec):
             cv = idx[1]
             sel = getattr(cv, "colsel", None)
@@ -414,7 +484,29 @@ class ExpMat:
             return RowsAllZero(self)
         if op == "NotEq" and isinstance(other, int) and other == 0:
             return RowsNonZero(self)
+        if isinstance(other, int) and not isinstance(other, bool) and not reflected and op in ("Lt", "Eq", "Gt", "LtE", "GtE", "NotEq"):
+            f = {"Lt": lambda a: a < other, "Eq": lambda a: a == other, "Gt": lambda a: a > other,
+                 "LtE": lambda a: a <= other, "GtE": lambda a: a >= other, "NotEq": lambda a: a != other}[op]
+            return EntryTest(self, f)
         return NotImplemented
+
+    def sx_setitem(self, ex, idx, value, node):
+        if isinstance(idx, tuple) and len(idx) == 2 and idx[0] == slice(None, None, None) and \
+                isinstance(idx[1], (int, z3.ArithRef)) and isinstance(value, IntVec):
+            d = idx[1]
+            site = ex.site("column_assign")
+            frame_check(ex, self.region, node)
+            ex.oblige(f"pre({site}).in_bounds", z3.And(0 <= d, d < self.D), "index", node)
+            ex.oblige(f"pre({site}).length", value.n == self.n, "precondition", node)
+            old = self._row
+            new = ex.ctx.func("rowset", I, Mono)
+            t, c = z3.Int(ex.ctx.fresh("t")), z3.Int(ex.ctx.fresh("c"))
+            ex.ctx.assume(z3.ForAll([t, c], expo(new(t), c) == z3.If(c == d, value.at(t), expo(old(t), c)),
+                                    patterns=[expo(new(t), c), expo(old(t), c)]))
+            self._row = lambda t: new(t)
+            self.column_set = (old, d, value)
+            return
+        raise U("exponent matrix item assignment", node)
 
     def sx_method(self, ex, attr, args, kw, node):
         if attr == "copy":
@@ -422,6 +514,21 @@ class ExpMat:
         if attr == "tolist":
             return V.Seq(self.n, lambda t: MonoRow(self.row(t), self.D))
         raise U(f"exponents.{attr}", node)
+
+
+class EntryTest:
+    """`exponents <op> constant`: boolean matrix; only numpy.any / numpy.all over every entry are modelled."""
+
+    def __init__(self, mat, test):
+        self.mat, self.test = mat, test
+
+    def every(self, ctx):
+        m = self.mat
+        return ctx.forall_range(0, m.n, lambda t: ctx.forall_range(0, m.D, lambda d: self.test(expo(m.row(t), d))))
+
+    def some(self, ctx):
+        m = self.mat
+        return z3.Not(ctx.forall_range(0, m.n, lambda t: ctx.forall_range(0, m.D, lambda d: z3.Not(self.test(expo(m.row(t), d))))))
 
 
 class RowsAllZero:
@@ -698,6 +805,39 @@ class NamesV:
     def sx_len(self, ex):
         return nlen(self.term)
 
+    def sx_getattr(self, ex, attr, node):
+        return V.BoundMethod(self, attr)
+
+    def sx_method(self, ex, attr, args, kw, node):
+        if attr == "index" and len(args) == 1 and not kw:
+            x = as_name(ex, args[0], node)
+            ctx = ex.ctx
+            nm = self.term
+            present = z3.Not(ctx.forall_range(0, nlen(nm), lambda d: nat(nm, d) != x))
+            if ex.decide(present, "names.index"):
+                pos = ctx.int("name_pos")
+                ctx.assume(z3.And(0 <= pos, pos < nlen(nm), nat(nm, pos) == x,
+                                  ctx.forall_range(0, pos, lambda d: nat(nm, d) != x)))
+                return pos
+            from .sx import RaiseSig
+            raise RaiseSig("ValueError", node, "tuple.index(x): x not in tuple")
+        raise U(f"tuple.{attr} on a name tuple", node)
+
+    def sx_getitem(self, ex, idx, node):
+        if isinstance(idx, (int, z3.ArithRef)) and not isinstance(idx, bool):
+            if isinstance(idx, int) and idx < 0:
+                idx = nlen(self.term) + idx
+            ex.oblige(f"pre({ex.site('index')}).in_bounds", z3.And(0 <= idx, idx < nlen(self.term)), "index", node)
+            return nat(self.term, idx)
+        if isinstance(idx, slice) and idx.start is None and idx.step is None and isinstance(idx.stop, int) and idx.stop >= 0:
+            k = idx.stop
+            ctx = ex.ctx
+            nm = ctx.const("names_prefix", Names)
+            ctx.assume(nlen(nm) == z3.If(nlen(self.term) < k, nlen(self.term), k))
+            ctx.assume(ctx.forall_range(0, nlen(nm), lambda d: nat(nm, d) == nat(self.term, d)))
+            return NamesV(nm)
+        raise U("name tuple indexing", node)
+
     def sx_compare(self, ex, op, other, node, reflected):
         if isinstance(other, NamesV) and op in ("Eq", "NotEq"):
             e = self.term == other.term
@@ -712,6 +852,14 @@ class NamesV:
 
     def sx_truth(self, ex):
         return nlen(self.term) > 0
+
+
+def as_name(ex, v, node=None):
+    if isinstance(v, z3.ExprRef) and v.sort() == Name:
+        return v
+    if isinstance(v, str):
+        return z3.Const(f"name:{v}", Name)
+    raise U("name designation", node)
 
 
 def names_distinct(ctx, nm):
@@ -865,6 +1013,8 @@ def install(reg):
             return z3.Not(mzero(a.m, a.D))
         if isinstance(a, BoolVec) and len(args) == 1 and not kw:
             return z3.Not(ex.ctx.forall_range(0, a.n, lambda t: z3.Not(a.at(t))))
+        if isinstance(a, EntryTest) and len(args) == 1 and not kw:
+            return a.some(ex.ctx)
         if isinstance(a, Arr) and len(args) == 1 and not kw:
             i = z3.Const(ex.ctx.fresh("i"), Idx)
             nz = (a.elem(i) != 0) if a.kind != "bool" else a.elem(i)
@@ -884,6 +1034,8 @@ def install(reg):
         if isinstance(a, RowsAllZero) and (args[1:] == [-1] or kw.get("axis") == -1):
             m = a.mat
             return BoolVec(m.n, lambda t: mzero(m.row(t), m.D))
+        if isinstance(a, EntryTest) and len(args) == 1 and not kw:
+            return a.every(ex.ctx)
         if isinstance(a, Arr) and len(args) == 1 and not kw:
             return ex.ctx.forall_idx(lambda i: (a.elem(i) != 0) if a.kind != "bool" else a.elem(i), a.shape)
         raise U("numpy.all of this value", node)
